@@ -4,27 +4,41 @@ Every case is a small inventory (<= 4 hosts x <= 3 services, colliding names), a
 and/or API filter queries.  The harness loads the real config twice - as written and with every
 `assign where F` rewritten to `(F) && true` (which ApplyRule::AddTargetedRule does not recognise) -
 and prints the objects existing afterwards; the model prints ar_apply_fast / ar_apply."""
-import random, re
+import os, random, re
 
 PID = 'C16'
+# the extended search the runner does after a proof/correspondence failure without an oracle hit: capped
+os.environ.setdefault('VERIF_SEARCH_S', '60')
 HEADER = []
 RULE = ('random inventories (<=4 hosts x <=3 services; names H,h,HS,S,"H S",P,...; vars, groups, display_name) x 1-3 apply rules '
         '(Service/Notification/Dependency/ScheduledDowntime, to Host/Service, for over arrays/dicts, use, ignore where, 2nd assign) whose '
         'filters are drawn from the recognised grammar host.name=="H" [&& service.name=="S"] [|| ...] and every shape at edit distance 1 '
         '(operands swapped, !=, host["name"], literal -> global constant/number/null/bool, wrong variable, wrong attribute, || false, || true, '
         '&& true, !!, in [..], match(), two host names under &&, host-only under to Service, mixed with vars/groups predicates); each load is '
-        'done as written and wrapped as (F) && true; API: GetFilterTargets with the same filters, plain and wrapped, with filter_vars. '
-        'non-trivial = at least one rule was put into the targeted index by the real AddRule, or an API query the real recogniser accepts; '
-        'distinct = distinct script text')
+        'done as written and wrapped as (F) && true; API: GetFilterTargets with the same filters, plain and wrapped, with filter_vars; '
+        'family frames: 2-4 rules on the same targets whose loop / use() variables are named like globals, like each other\'s variables '
+        'and like own attributes of the new object (host_name, name, service_name), read by the other rules\' for term, filter, ignore and '
+        'body (vars.b<i> = X, this.X, vars.b<j>), for over arrays and dictionaries (host vars, globals, literals), rules that throw; each such '
+        'configuration is loaded as written + wrapped and then again in EVERY file order of the rules (<= 24), alternating 1/4 commit worker '
+        'threads and the file order of the inventory, each load compared with the load in script order (names and attributes). '
+        'non-trivial = at least one rule was put into the targeted index by the real AddRule, or an API query the real recogniser accepts, or '
+        '(frames) two rules created objects on one target and every order was loaded; distinct = distinct script text')
 TRUSTED = ['model: coq/Apply/ArModel.v (transcription of applyrule-targeted.cpp, applyrule.cpp AddRule, *-apply.cpp EvaluateApplyRule(s), '
            'config_parser.yy assign/ignore combination, expression.cpp Variable/Indexer/Equal/NotEqual/LogicalAnd/Or/Negate/In, '
            'value-operators.cpp operator==, Value::ToBool, filterutility.cpp GetFilterTargets fast path)',
            'harness resets the object registry between loads by Unregister + clearing ConfigItem::m_Items/m_UnnamedItems and ApplyRule::m_Rules; '
            'objects are committed (registered), not activated',
-           'the index a rule got is read from ApplyRule::m_Rules (private, -fno-access-control) only to report the fast-path share; verdicts use the created objects']
+           'the index a rule got is read from ApplyRule::m_Rules (private, -fno-access-control) only to report the fast-path share; verdicts use the created objects',
+           'model of the frame: coq/Apply/ArFrame.v (frame.Locals as a mutable dictionary through EvaluateApplyRule/EvaluateApplyRules; one frame per '
+           'EvaluateApplyRule call) - its agreement with the code is what the frames family compares; the rule body sees locals, then the modelled own '
+           'fields of the new object (host_name, name, service_name, parent/child names, vars.b<i>), then globals; other attributes are not modelled and not generated',
+           'ar_order compares each permuted load with the script-order load textually in the harness (sorted canonical object lines) and prints the differing set; '
+           'the Gallina order oracle then compares the two parsed sets']
 ASSUMPTIONS = ['function calls in filters are opaque in the model; the generators use match() only, whose glob semantics is supplied by the glue',
                'Dictionary/object == compares pointers in the code and is modelled as "different"; generators do not compare dictionaries',
-               'parallel evaluation (WorkQueue, Concurrency=2) is exercised, not modelled']
+               'parallel evaluation (WorkQueue with 1, 2 and 4 threads) is exercised, not modelled',
+               'expressions of the model are pure (no assignment inside filters, no mutation of closure values or of the target from a rule body): '
+               'a use() dictionary mutated by a rule body is shared by reference between all instances in the code and outside the model']
 
 
 def hx(s):
@@ -301,6 +315,178 @@ def gen_rules_case(rnd, fam='rules'):
     return {'lines': lines, 'tags': {'family': fam}}
 
 
+# ---------------------------------------------------------------------------------------------------------
+# family "frames": 2-4 rules hitting the same targets whose variables COLLIDE on purpose - loop variables, use()
+# variables named like globals, like the variables of the other rules, like own attributes of the object under
+# construction (host_name, name, service_name) - read by the other rules' `for` term, filter, ignore and body.
+# The configuration is loaded as written + wrapped (ar_load) and then in every file order of the rules, with the
+# inventory reversed and 1/4 worker threads (ar_order).
+FR_GLOBALS = {'ArCH': S('H'), 'ArCh': S('h'), 'ArCS': S('S'), 'ArCN': 'n(5)', 'ArCName': S('name'), 'ArCE': S(''),
+              'ArCL': 'arr(%s,%s)' % (S('a'), S('b')), 'ArCM': 'dict(%s=%s,%s=n(5))' % (hx('a'), S('H'), hx('b')), 'ArCP': 'n(80)'}
+FR_VARS = ['ArCH', 'ArCN', 'ArCL', 'ArCP', 'ArCM', 'u', 'k', 'v', 'x', 'host_name', 'name', 'service_name']
+FR_SCALARS = [S('H'), S('h'), S('a'), S('b'), 'n(80)', 'n(5)']
+FR_OWNFIELDS = {0: ['host_name', 'name'], 1: ['host_name', 'service_name'], 3: ['host_name', 'service_name'],
+                2: ['child_host_name', 'parent_host_name', 'child_service_name']}
+
+
+def gen_frames_inventory(rnd, lines):
+    hn = rnd.sample(['H', 'h', 'G', 'P'], rnd.choice((1, 2, 2, 3)))
+    svcs = []
+    for h in hn:
+        v = []
+        if rnd.random() < 0.85:
+            v.append('%s=arr(%s)' % (hx('l'), ','.join(rnd.choice(FR_SCALARS) for _ in range(rnd.choice((0, 1, 1, 1, 2))))))
+        if rnd.random() < 0.8:
+            v.append('%s=dict(%s)' % (hx('m'), ','.join('%s=%s' % (hx(k), rnd.choice(FR_SCALARS + [S('v')]))
+                                                       for k in sorted(rnd.sample(['a', 'b', 'c'], rnd.choice((0, 1, 1, 1, 2)))))))
+        if rnd.random() < 0.85:
+            v.append('%s=%s' % (hx('p'), rnd.choice(FR_SCALARS)))
+        v.sort(key=lambda kv: bytes.fromhex(kv.split('=')[0]))
+        l = 'ar_host n=%s' % hx(h)
+        if v:
+            l += ' vars=dict(%s)' % ','.join(v)
+        lines.append(l)
+    for h in hn:
+        for sv in rnd.sample(['S', 's', 'T'], rnd.choice((0, 1, 1, 2))):
+            lines.append('ar_svc h=%s n=%s' % (hx(h), hx(sv)))
+            svcs.append((h, sv))
+    return hn, svcs
+
+
+def gen_frames_case(rnd):
+    lines = ['ar_glob n=%s v=%s' % (k, FR_GLOBALS[k]) for k in sorted(FR_GLOBALS)]
+    hn, svcs = gen_frames_inventory(rnd, lines)
+    snames = sorted({sv for _, sv in svcs}) or ['S']
+    nr = rnd.choice((2, 2, 2, 3, 3, 4))
+    main_kind = rnd.choice((0, 0, 0, 0, 1, 1, 2, 3, 3))
+    main_to = 'host' if main_kind == 0 else rnd.choice(('host', 'svc'))
+    HV = 'dot(dot(var(host),vars),%s)'
+    # one name per case that the rules fight over: bound by some (loop / use variable), read by the others expecting
+    # the global, the own field of the new object, or nothing at all
+    hot = rnd.choice(('ArCH', 'ArCN', 'ArCP', 'ArCL', 'ArCH', 'ArCP', 'host_name', 'name', 'service_name', 'u', 'k'))
+
+    def pick(excl=()):
+        if hot not in excl and rnd.random() < 0.5:
+            return hot
+        return rnd.choice([x for x in FR_VARS if x not in excl])
+
+    for i in range(nr):
+        if rnd.random() < 0.75:
+            kind, to = main_kind, main_to
+        else:
+            kind = rnd.choice((0, 1, 2, 3))
+            to = 'host' if kind == 0 else rnd.choice(('host', 'svc'))
+        svc = to == 'svc'
+        l = 'ar_rule kind=%d to=%s name=r%d' % (kind, to, i)
+        own = []
+        loop = rnd.random() < 0.55
+        fv = None
+        if loop:
+            fk = pick()
+            isdict = rnd.random() < 0.4
+            if isdict:
+                fv = pick((fk,))
+            r = rnd.random()
+            good = rnd.random() < 0.96          # the container kind the iterator wants
+            wantdict = isdict if good else not isdict
+            if r < 0.55:
+                ft = HV % ('m' if wantdict else 'l')
+            elif r < 0.8:
+                ft = 'var(%s)' % ('ArCM' if wantdict else 'ArCL')
+            elif r < 0.9:
+                ft = 'var(%s)' % rnd.choice([x for x in FR_VARS if x not in ('ArCL', 'ArCM')])     # possibly another rule's variable: undefined here -> no instances
+            else:
+                ft = ('dict(%s=%s)' % (hx('a'), rnd.choice(FR_SCALARS))) if wantdict else 'arr(%s)' % ','.join(rnd.sample(FR_SCALARS, 2))
+            l += ' fk=%s' % fk + (' fv=%s' % fv if fv else '') + ' ft=%s' % ft
+            own += [fk] + ([fv] if fv else [])
+        use = []
+        if rnd.random() < 0.4:
+            for un in sorted({pick() for _ in range(rnd.choice((1, 1, 2)))}):
+                use.append('%s:%s' % (un, rnd.choice(FR_SCALARS)))
+                own.append(un)
+        safe = sorted(set(own)) * 3 + sorted(FR_GLOBALS)
+        unsafe = [x for x in FR_VARS if x not in own and x not in FR_GLOBALS]
+
+        def var():
+            if (hot in FR_GLOBALS or hot in own) and rnd.random() < 0.4:
+                return 'var(%s)' % hot
+            return 'var(%s)' % (rnd.choice(unsafe) if unsafe and rnd.random() < 0.04 else rnd.choice(safe))
+
+        def atom():
+            r = rnd.random()
+            if svc and r < 0.08:
+                # what an `apply Service` body assigned (vars.b0), read by a rule applied to that service
+                # (never against the global dictionary: == on dictionaries is pointer identity in the code, see ASSUMPTIONS)
+                x = var()
+                return 'eq(dot(dot(var(service),vars),b0),%s)' % (x if x != 'var(ArCM)' else 'var(ArCN)')
+            if r < 0.18:
+                return 'eq(%s,%s)' % (HV % 'p', var())
+            if r < 0.28:
+                return 'eq(%s,%s)' % (var(), rnd.choice(FR_SCALARS))
+            if r < 0.38:
+                return 'in(%s,%s)' % (var(), HV % 'l')
+            if r < 0.46:
+                return 'eq(%s,%s)' % (HOSTN, var())
+            if r < 0.64:
+                a = cmp_atom(rnd, 'host', rnd.choice(hn), CONSTS, True)
+                if svc and rnd.random() < 0.7:
+                    a = 'and(%s,%s)' % (a, cmp_atom(rnd, 'service', rnd.choice(snames), CONSTS, True))
+                return a
+            if r < 0.70:
+                return 'ne(%s,null)' % var()
+            if r < 0.76:
+                return var()
+            return 't'
+
+        def pred():
+            a = atom()
+            r = rnd.random()
+            if r < 0.25:
+                return 'and(%s,%s)' % (a, atom())
+            if r < 0.45:
+                return 'or(%s,%s)' % (a, atom())
+            return a
+
+        if not loop or rnd.random() < 0.8:
+            l += ' a=' + pred()
+        if rnd.random() < 0.2:
+            l += ' i=' + atom()
+        body = []
+        if rnd.random() < 0.75:
+            for _ in range(rnd.choice((1, 2, 2, 3, 4))):
+                r = rnd.random()
+                if rnd.random() < 0.3 and (hot in FR_GLOBALS or hot in own or hot in FR_OWNFIELDS[kind]):
+                    body.append('var(%s)' % hot)
+                elif r < 0.35 and own:
+                    body.append('var(%s)' % rnd.choice(own))
+                elif r < 0.5:
+                    body.append('var(%s)' % rnd.choice(sorted(FR_GLOBALS)))
+                elif r < 0.75:
+                    f = rnd.choice(FR_OWNFIELDS[kind])
+                    body.append('var(%s)' % f if rnd.random() < 0.75 else 'dot(this,%s)' % f)
+                elif r < 0.85 and body:
+                    body.append('dot(var(vars),b%d)' % rnd.randrange(len(body)))
+                elif r < 0.93:
+                    body.append('dot(dot(var(service),vars),b0)' if svc and rnd.random() < 0.5 else HOSTN)
+                elif unsafe and rnd.random() < 0.25:
+                    # a name nobody defines for THIS rule (another rule's variable): undefined, the load fails -
+                    # unless it is an own field of the new object
+                    x = rnd.choice(unsafe)
+                    if x != 'name' or kind == 0:
+                        body.append('var(%s)' % x)
+        if use:
+            l += ' use=' + ','.join(use)
+        if body:
+            l += ' body=' + ';'.join(body[:4])
+        if kind == 2:
+            # one parent for all Dependency rules of a case: no dependency cycles between hosts (their detection is not C16's)
+            l += ' parent=%s' % hx(hn[0])
+        lines.append(l)
+    lines.append('ar_load')
+    lines.append('ar_order')
+    return {'lines': lines, 'tags': {'family': 'frames'}}
+
+
 def gen_api_case(rnd):
     lines = []
     hn, svcs = gen_inventory(rnd, lines)
@@ -338,19 +524,33 @@ def gen_api_case(rnd):
 
 def generate(seed, tier):
     rnd = random.Random(seed * 7919 + 16)
-    n_rules, n_api = {'quick': (6000, 1600), 'thorough': (60000, 16000), 'search': (8000, 2000)}.get(tier, (6000, 1600))
+    n_rules, n_api, n_frames = {'quick': (6000, 1600, 1500), 'thorough': (60000, 16000, 15000),
+                                'search': (2500, 600, 1200)}.get(tier, (6000, 1600, 1500))
     cases = [gen_rules_case(rnd) for _ in range(n_rules)]
     cases += [gen_api_case(rnd) for _ in range(n_api)]
+    rnd2 = random.Random(seed * 104729 + 1601)       # own stream: the older families keep their population
+    cases += [gen_frames_case(rnd2) for _ in range(n_frames)]
     return cases
 
 
 def nontrivial(case, impl_lines):
+    if case.get('tags', {}).get('family') == 'frames':
+        # at least two rules created something on one target, and every file order was loaded
+        per = {}
+        for l in impl_lines:
+            if l.startswith('p-obj'):
+                t = dict(x.split('=', 1) for x in l.split()[1:] if '=' in x)
+                m = re.search(r'21(7230|7231|7232|7233)', t.get('n', ''))       # "!r<i>"
+                per.setdefault((t.get('h'), t.get('s')), set()).add(m.group(1) if m else '?')
+        return any(len(v) >= 2 for v in per.values()) and any(l.startswith('o-load') for l in impl_lines)
     return any((l.startswith('p-rule') and ' idx=R' not in l and ' idx=none' not in l) or l.startswith('api fast=1') for l in impl_lines)
 
 
 def classify(case, detail, impl_lines):
     if 'crash' in detail:
         return 'crash'
+    if 'depends-on-order' in detail:
+        return 'created-set-depends-on-order'
     if 'api-recorded-divergence' in detail:
         return 'api-recorded-divergence'
     if 'recorded-divergence' in detail and 'premise=for-error-on-unindexed-target' in detail:
@@ -370,15 +570,33 @@ def classify(case, detail, impl_lines):
 
 
 def keep_line(l):
-    return l.startswith('ar_load') or l.startswith('ar_glob')
+    return l.startswith('ar_load') or l.startswith('ar_glob') or l.startswith('ar_order')
 
 
 def extra_stats(cases, impl):
     rules = idx = failp = failw = okp = api = apifast = apierr = 0
     objs = 0
     kinds = {}
+    oloads = osame = fr_cases = fr_shared_target = fr_collide = 0
     for c in cases:
+        if c.get('tags', {}).get('family') == 'frames':
+            fr_cases += 1
+            if nontrivial(c, impl.get(c['id'], [])):
+                fr_shared_target += 1
+            # a name bound by one rule (loop / use variable) and read by another rule that does not bind it
+            binds, reads = [], []
+            for l in c['lines']:
+                if l.startswith('ar_rule'):
+                    b = set(re.findall(r' f[kv]=(\w+)', l)) | set(re.findall(r'[=,](\w+):', l.split(' use=')[1].split(' ')[0]) if ' use=' in l else [])
+                    binds.append(b)
+                    reads.append(set(re.findall(r'var\((\w+)\)', l)) - b)
+            if any(binds[i] & reads[j] for i in range(len(binds)) for j in range(len(binds)) if i != j):
+                fr_collide += 1
         for l in impl.get(c['id'], []):
+            if l.startswith('o-load'):
+                oloads += 1
+                if l.endswith(' same'):
+                    osame += 1
             if l.startswith('p-rule'):
                 rules += 1
                 if ' idx=H:' in l or ' idx=S:' in l:
@@ -404,4 +622,7 @@ def extra_stats(cases, impl):
             'plain_loads_ok': okp, 'plain_loads_failed': failp, 'wrapped_loads_failed': failw,
             'objects_created_plain': objs, 'objects_by_kind': kinds,
             'api_queries': api, 'api_queries_on_fast_path': apifast, 'fast_path_share_api': round(apifast / api, 3) if api else 0,
-            'api_queries_throwing': apierr}
+            'api_queries_throwing': apierr,
+            'frames_cases': fr_cases, 'frames_cases_two_rules_created_on_one_target': fr_shared_target,
+            'frames_cases_name_bound_by_one_rule_read_by_another': fr_collide,
+            'order_loads': oloads, 'order_loads_same_as_script_order': osame}
